@@ -214,7 +214,10 @@ func CheckCase(cs Case) *ev.Violation {
 func readOnly(c *tabular.Cell, t *tabular.ATable) {
 	_ = fmt.Sprintf("%#v|%v|%s", c, c, c)
 	_ = c.GoString()
-	_, _, _, _ = c.Lines(), c.Height(), c.TerminalCellWidth(), c.Item()
+	_, _, _ = c.Height(), c.TerminalCellWidth(), c.Item()
+	for l, k := c.Lines(), 0; k < len(l); k++ {
+		l[k] = "scribbled by the caller" // the list of lines handed out is the caller's
+	}
 	_ = tabular.NewCell(*c) // wrapping the cell in another cell reads its text, not its item
 	if t != nil {
 		_ = fmt.Sprintf("%#v", t)
